@@ -22,9 +22,9 @@ type Sorts struct {
 	done         map[string]bool   // sort name -> declared
 	byType       map[string]string // types.TypeString -> sort name
 	structs      map[string]*types.Struct
-	Extra        map[string]*DT  // spec-level datatypes (sort decls)
-	inProgress   map[string]bool // struct sorts being declared: references back to them are opaque (Int)
-	hits         int             // back-references into recursive types met so far
+	Extra        map[string]*DT      // spec-level datatypes (sort decls)
+	inProgress   map[string]bool     // struct sorts being declared: references back to them are opaque (Int)
+	hits         int                 // back-references into recursive types met so far
 	fieldSorts   map[string][]string // struct sort -> field sorts as declared
 	recursiveHit bool
 }
